@@ -275,6 +275,7 @@ class Compiler:
                 # targets to evaluate and index into that new target.
                 if index is None:
                     c_expr = self._compile(column)
+                    check_aggregates(c_expr)
 
                     # Attempt to reconcile the expression with one of the existing
                     # target expressions.
@@ -426,6 +427,7 @@ class Compiler:
             # Compile HAVING clause.
             if group_by.having is not None:
                 c_expr = self._compile(group_by.having)
+                check_aggregates(c_expr)
                 if not is_aggregate(c_expr):
                     raise CompilationError('the HAVING clause must be an aggregate expression')
                 having_index = len(new_targets)
@@ -795,6 +797,23 @@ def _get_columns_and_aggregates(node, columns, aggregates):
     else:
         for child in node.childnodes():
             _get_columns_and_aggregates(child, columns, aggregates)
+
+
+def check_aggregates(c_expr):
+    """Check the rules on aggregates within one expression.
+
+    The rules enforced on targets hold for HAVING and ORDER BY
+    expressions too: no mix of aggregates and bare columns and no
+    aggregates of aggregates.
+
+    """
+    columns, aggregates = get_columns_and_aggregates(c_expr)
+    if columns and aggregates:
+        raise CompilationError('mixed aggregates and non-aggregates are not allowed')
+    for aggregate in aggregates:
+        for child in aggregate.childnodes():
+            if is_aggregate(child):
+                raise CompilationError('aggregates of aggregates are not allowed')
 
 
 def is_aggregate(node):
